@@ -653,6 +653,22 @@ class StmtMixin(BuiltinMixin):
         if isinstance(cm, Ref) and META[cm.oid].kind in ("object",):
             enter, exit_ = ("__aenter__", "__aexit__") if is_async else ("__enter__", "__exit__")
             out = []
+            top = self.top_ctx
+            if is_async and top is not None and top.contract is not None and top.contract.env.get("await_pre"):
+                # env await_pre {access path: (name, expr, tags)}: an obligation owed just before the function starts waiting on
+                # that object (e.g. "nothing is left unsent while we wait to read")
+                from .contracts import _clauses
+                sctx = top.sub(spec=True)
+                for path, spec in top.contract.env["await_pre"].items():
+                    try:
+                        target = self.eval1(ast.parse(path, mode="eval").body, st, sctx)
+                    except EngineError:
+                        continue
+                    if isinstance(target, Opt):
+                        target = target.val
+                    if isinstance(target, Ref) and target.oid == cm.oid:
+                        for cl in _clauses([spec], top.contract.tags):
+                            self.oblige(st, self.eval_clause(cl, st, sctx), "await-pre", line, cl.name, cl.tags)
             for s2, v in self.call_method(st, ctx, cm, enter, [], {}, line):
                 if isinstance(v, Raise):
                     out.append((s2, v))
